@@ -107,6 +107,27 @@ def run(ctx: Any, prog: Program) -> None:
         raise AnalysisError('ESCAPES / ESCAPES_INV are not foldable dict tables')
     esc_node = tk.global_assign('ESCAPES')
     inv_node = tk.global_assign('ESCAPES_INV')
+    # the tables are what the module leaves behind, not only what their defining expression says: later module-level stores
+    # (`ESCAPES_INV[k] = v`, `.update({...})`, `del`) are applied in order; anything else that touches them is not modelled
+    ESC, INV = dict(ESC), dict(INV)
+    for st in tk.tree.body:
+        for tbl_name, tbl in (('ESCAPES', ESC), ('ESCAPES_INV', INV)):
+            if isinstance(st, ast.Assign) and len(st.targets) == 1 and isinstance(st.targets[0], ast.Subscript) and dotted(st.targets[0].value) == tbl_name:
+                try:
+                    tbl[fold.fold(st.targets[0].slice, {})] = fold.fold(st.value, {tbl_name: dict(tbl), 'ESCAPES': dict(ESC), 'ESCAPES_INV': dict(INV)})
+                except Exception as exc:          # FoldError or a KeyError inside the folded expression
+                    raise AnalysisError(f'module-level store `{U(st)[:60]}` into {tbl_name} could not be folded: {exc}')
+            elif isinstance(st, ast.Expr) and isinstance(st.value, ast.Call) and isinstance(st.value.func, ast.Attribute) and dotted(st.value.func.value) == tbl_name:
+                if st.value.func.attr == 'update' and len(st.value.args) == 1 and not st.value.keywords:
+                    try:
+                        tbl.update(fold.fold(st.value.args[0], {}))
+                    except Exception as exc:
+                        raise AnalysisError(f'`{U(st)[:60]}` could not be folded: {exc}')
+                else:
+                    raise AnalysisError(f'module-level `{U(st)[:60]}` changes {tbl_name} in a way that is not modelled')
+            elif isinstance(st, ast.Delete) and any(isinstance(t, ast.Subscript) and dotted(t.value) == tbl_name for t in st.targets):
+                for t in st.targets:
+                    tbl.pop(fold.fold(t.slice, {}), None)       # type: ignore[attr-defined]
 
     # ---- T1 ------------------------------------------------------------------------------------
     for sym, ch in ESC.items():
@@ -114,7 +135,9 @@ def run(ctx: Any, prog: Program) -> None:
         ctx.check('C02.T1', ok, tk, esc_node, f'escape symbol {sym!r} -> {ch!r} must be 1 char -> 1 char and the symbol not a raw line break',
                   func='<module>', text=f'ESCAPES[{sym!r}]')
     for ch, rep in INV.items():
-        ok = (isinstance(rep, str) and len(rep) == 2 and rep[0] == '\\' and rep[1] in ESC and ESC[rep[1]] == ch)
+        # (the key is ONE character: a multi-character key makes the writer swallow several characters into one escape, which the reader
+        # expands to a single character again)
+        ok = (isinstance(ch, str) and len(ch) == 1 and isinstance(rep, str) and len(rep) == 2 and rep[0] == '\\' and rep[1] in ESC and ESC[rep[1]] == ch)
         ctx.check('C02.T1', ok, tk, inv_node, f'ESCAPES_INV[{ch!r}] = {rep!r} must be backslash + a symbol that ESCAPES maps back to {ch!r}',
                   func='<module>', text=f'ESCAPES_INV[{ch!r}]')
 
@@ -408,6 +431,7 @@ def run(ctx: Any, prog: Program) -> None:
 
 
 MUTANTS = [
+    {'id': 'crlf_pair_escaped_as_one', 'file': 'tokenizer.py', 'find': "ESCAPE_RE = re.compile('|'.join(\n    re.escape(c) for c in ESCAPES_INV\n", 'replace': "ESCAPES_INV['\\r\\n'] = ESCAPES_INV['\\n']\nESCAPE_RE = re.compile('|'.join(\n    re.escape(c) for c in sorted(ESCAPES_INV, key=len, reverse=True)\n", 'expect': 'C02.T1'},
     {'id': 'multiline_cr_before_lf_left_raw', 'file': 'tokenizer.py', 'find': "ESCAPE_MULTILINE_RE = re.compile('|'.join(\n    re.escape(c) for c in ESCAPES_INV", 'replace': "ESCAPE_MULTILINE_RE = re.compile('|'.join(\n    re.escape(c) + ('(?!\\n)' if c == '\\r' else '') for c in ESCAPES_INV", 'expect': 'C02.T3'},
     {'id': 'escaped_quote_before_newline_ends_string', 'file': 'tokenizer.py', 'find': "                elif escape == '\\n':\n                    continue  # Allow \\ at the end of a line to skip.\n", 'replace': "                elif escape == '\\n':\n                    continue  # Allow \\ at the end of a line to skip.\n                elif escape == '\"' and self._peek_char() in (None, '\\r', '\\n'):\n                    value_chars.append('\\\\')\n                    return Token.STRING, ''.join(value_chars)\n", 'extra': [{'file': 'tokenizer.py', 'find': "    def _get_token(self) -> tuple[Token, str]:\n        \"\"\"Return the next token, value pair.\"\"\"", 'replace': "    def _peek_char(self) -> Optional[str]:\n        char = self._next_char()\n        self._char_index -= 1\n        return char\n\n    def _get_token(self) -> tuple[Token, str]:\n        \"\"\"Return the next token, value pair.\"\"\""}], 'expect': 'C02.T3'},
     {'id': 'escape_text_memo_ignores_mode', 'file': 'tokenizer.py', 'find': "    return (ESCAPE_MULTILINE_RE if multiline else ESCAPE_RE).sub(_escape_matcher, text)", 'replace': "    if text in _PLAIN_TEXT:\n        return text\n    result = (ESCAPE_MULTILINE_RE if multiline else ESCAPE_RE).sub(_escape_matcher, text)\n    if result is text:\n        _PLAIN_TEXT.add(text)\n    return result", 'extra': [{'file': 'tokenizer.py', 'find': "def _escape_matcher(match", 'replace': "_PLAIN_TEXT: set = set()\n\n\ndef _escape_matcher(match"}], 'expect': 'C02.T2'},
